@@ -59,8 +59,9 @@ def chance(draw, p):
 # ---------------------------------------------------------------------------------------- declarations
 
 class PktGen:
-    def __init__(self, draw, prof, name, earlier, is_root):
+    def __init__(self, draw, prof, name, earlier, is_root, tables=None):
         self.draw, self.prof, self.name, self.earlier, self.is_root = draw, prof, name, earlier, is_root
+        self.tables = tables if tables is not None else []     # option tables of earlier run-time selected references (whole family)
         self.fields = []
         self.opts = {}
         self.n = 0
@@ -207,16 +208,28 @@ class PktGen:
             if t == 0:
                 o = ["field", {"k": "int", "name": "_", "n": d(st.sampled_from([1, 2, 3, 4])), "signed": chance(d, 0.3),
                                "endian": d(st.sampled_from(["big", "little"]))}]
-                if o[1]["n"] == 1:
+                if o[1]["n"] == 1 or (self.prof.get("refsel_optdep") and chance(d, 0.5)):
                     o[1]["endian"] = None
             elif t in (1, 2):
                 o = ["field", self.gen_data(name="_", dynamic=True)]
             else:
                 o = ["pkt", d(st.sampled_from(self.earlier))["name"]]
             options.append([kk, o])
+        if self.tables and chance(d, 0.35):
+            # reuse the very same table (the same Field objects) as an earlier reference: rendered as ONE module-level table
+            style, options = d(st.sampled_from(self.tables))
+            options = ir.clone(options)
+            keys = [kk for kk, _ in options]
+            share = True
+        else:
+            share = False
         key = self.control(keys=keys)
         f = {"k": "refsel", "name": name or self.fresh(), "key": ["f", key], "form": d(st.sampled_from(["expr", "call"])),
              "style": style, "options": options}
+        if style == "dict" and all(o[0] == "field" or True for _, o in options):
+            if not share:
+                self.tables.append((style, options))
+            f["table"] = repr(sorted((repr(kk), repr(o)) for kk, o in options))
         o0 = options[0][1]
         if o0[0] == "pkt":
             f["default"] = ["pkt", o0[1], {}]
@@ -263,6 +276,10 @@ class PktGen:
             t = d(st.integers(0, 2))
             if t == 0 or (elem["k"] not in ("int", "ref", "data")):
                 u = ["bin", "ge", ["un", "len", me], ["c", d(st.integers(1, 4))]]
+                if chance(d, 0.3):
+                    # elements that may consume no byte at all: the list must still grow until the condition holds
+                    elem = {"k": "data", "name": "_", "incl": False, "size": ["const", 0] if chance(d, 0.4) else ["field", self.control()]}
+                    f["elem"] = elem
             elif elem["k"] == "int":
                 u = ["bin", "eq", last, ["c", c]]
             elif elem["k"] == "data":
@@ -514,9 +531,10 @@ def order_fields(fields):
 def families(draw, prof):
     npk = draw(st.integers(1, prof["max_pkts"]))
     pkts = []
+    tables = []
     for i in range(npk):
         sub_prof = prof
-        g = PktGen(draw, sub_prof, "P%d" % i, list(pkts), i == npk - 1)
+        g = PktGen(draw, sub_prof, "P%d" % i, list(pkts), i == npk - 1, tables)
         p = g.build()
         pkts.append(p)
     fam = {"pkts": pkts}
